@@ -39,7 +39,8 @@ ExpR   == IF Refused THEN -998
                THEN E.r   \* replies of PFADD, and of DEL on a HyperLogLog key (write cache, recorded under C07), are not modelled
           ELSE ReplyOf(st, E.op, E.u, E.a, E.b)
 ExpRl  == IF E.op = "keys" THEN KeysOf(st, TyOf(E.u), TabOf(E.u))
-          ELSE IF E.op = "limit" THEN E.rl ELSE <<>>
+          ELSE IF E.op = "limit" THEN E.rl
+          ELSE IF E.op = "zrangebylex" THEN LexMembers(st[E.u], E.a, E.b) ELSE <<>>
 Diff   == IF Len(E.d) = NTup THEN {x \in Tups : Dump(ExpSt, x) # E.d[x]} ELSE {}
 
 Mismatch == /\ bad' = TRUE
